@@ -319,6 +319,9 @@ def check_language(sink, fn, names, what, node):
     except RL.Unsupported as u:
         _err("%s: language comparison failed (%s)" % (fn.qualname, u))
     label = conj.label()
+    # finding key = fingerprint of the *language* (canonical minimal DFA): re-spelling the regex keeps it,
+    # any change of the selected names changes it
+    fp = "names#" + RL.fingerprint(conj, [RL.ASCII_DIGIT, uni])
     sink.count("regex_literals", len(names.accs))
     for r, rname in REGIONS.items():
         v = res.get(r, {"only_a": None, "only_b": None})
@@ -329,7 +332,7 @@ def check_language(sink, fn, names, what, node):
             parts.append("selects %r which is not a root-level classes<N>.dex name" % extra)
         if missing is not None:
             parts.append("does not select %r" % missing)
-        sink.check("dex-regex/" + rname, "%s: %s" % (fn.qualname, what), ok, fn.qualname, label,
+        sink.check("dex-regex/" + rname, "%s: %s" % (fn.qualname, what), ok, fn.qualname, fp,
                    "%s: the names %s are not exactly classes[0-9]*\\.dex: %s" % (what, label, "; ".join(parts)),
                    node=node, witness=dict(selected_but_not_dex=extra, dex_but_not_selected=missing, reference=REFERENCE),
                    detail="L(%s) == L(fullmatch %s) on region %s (%d alphabet classes)" % (label, REFERENCE, rname, len(alpha.classes)))
@@ -761,7 +764,6 @@ def _mutants(nodes):
 
 def _thorough(ctx, nodes, class_names, base_sink):
     base = set(base_sink.failed)
-    base_rules = {(r, c) for r, q, c in base}
     killed = total = silent = btotal = 0
     survivors, noisy = [], []
     for label, mnodes, breaking in _mutants(nodes):
@@ -770,10 +772,8 @@ def _thorough(ctx, nodes, class_names, base_sink):
         s = Sink()
         try:
             core(s, mnodes, class_names, ctx.require)
-            new = {k for k in s.failed if k not in base}
-            # a regex edit changes the construct text of today's findings; it only counts as "fired"
-            # when the (rule, witness-independent) failure set grew or a witness-bearing message changed
-            fired = bool(new) and _really_new(s.failed, base_sink.failed, new)
+            # same criterion as the known-findings protocol: a failing (rule, qualname, construct) key that today's tree does not have
+            fired = any(k not in base for k in s.failed)
             err = None
         except AnalysisError as e:
             fired, err = False, str(e)
@@ -797,18 +797,3 @@ def _thorough(ctx, nodes, class_names, base_sink):
     if noisy:
         raise AnalysisError("rule fires on benign edits: %s" % "; ".join(noisy))
     ctx.floor("mutants", 12, total)
-
-
-def _really_new(failed, base_failed, new):
-    """a failing key counts as new unless it is one of today's findings whose
-    construct text changed while its message (region + witness) stayed the same"""
-    base_msgs = {(k[0], k[1], _strip_label(v)) for k, v in base_failed.items()}
-    for k in new:
-        if (k[0], k[1], _strip_label(failed[k])) not in base_msgs:
-            return True
-    return False
-
-
-def _strip_label(msg):
-    # drop the regex label so that only "which names are wrong" is compared
-    return re.sub(r"re\.compile\(.*?\)\.(match|search|fullmatch)", "RX", msg)
